@@ -121,16 +121,21 @@ def same(got, exp, real, ob=None):
     return got == exp and isinstance(got, tuple) and got[1][0] is real
 
 
-def eval_registry(h, flavour, combo, vals, stats):
+def eval_registry(h, flavour, combo, vals, stats, places=None):
     cls = FLAVOURS[flavour]
+    places = places or (0,) * len(combo)
 
     def fresh():
-        r = cls()
-        for ci, vi in zip(combo, vals):
+        # the registry that is queried, over one base registry; each entry
+        # lives in the registry itself (0) or in the base (1)
+        base = cls()
+        r = cls((base,))
+        for ci, vi, pl in zip(combo, vals, places):
             k = h.KEYS[ci]
-            r.register(list(k[0]), k[1], k[2], h.VALS[vi])
+            tgt = base if pl else r
+            tgt.register(list(k[0]), k[1], k[2], h.VALS[vi])
             if k[2] == '':
-                r.subscribe(list(k[0]), k[1], h.VALS[vi])
+                tgt.subscribe(list(k[0]), k[1], h.VALS[vi])
         return r
     for obname, ob in h.OBJ.items():
         real = real_of(ob)
@@ -253,7 +258,7 @@ def evaluate(arg):
     for it in items:
         n += 1
         if it[0] == 'reg':
-            v = eval_registry(h, flavour, it[1], it[2], stats)
+            v = eval_registry(h, flavour, it[1], it[2], stats, it[3] if len(it) > 3 else None)
         elif it[0] == 'multi':
             v = eval_multi(h, flavour, stats)
         else:
@@ -283,6 +288,12 @@ def run(ctx):
         for combo in itertools.combinations(range(nkeys), size):
             for vals in itertools.product(range(nvals), repeat=size):
                 items.append(('reg', combo, vals))
+    # the same with some or all entries living in a base registry
+    for size in (1, 2):
+        for combo in itertools.combinations(range(nkeys), size):
+            for places in itertools.product((0, 1), repeat=size):
+                if any(places):
+                    items.append(('reg', combo, tuple(range(size)), places))
     items += [('multi',), ('badnames',)]
     jobs = []
     for i in range(0, len(items), 4):
